@@ -621,3 +621,8 @@ M("c12-terminal-merged-as-common-node", "C12", "cola/libavoid/hyperedgeimprover.
 M("c12-shift-onto-terminal", "C12", "cola/libavoid/hyperedgeimprover.cpp",
   "                // The next position would collapse a whole connector.\n                m_balance_count = 0;",
   "                // The next position would collapse a whole connector.", mention=["SHIFT-NOT-ONTO-TERMINAL"])
+
+# ---------------------------------------------------------------- C09 neighbour twins
+M("c09-neutral-cache-overlapx", "C09", "cola/libvpsc/rectangle.cpp",
+  "        Node *u=*(i);\n        if(u->r->overlapX(v->r)<=0) {\n            rightv->insert(u);\n            return rightv;\n        }\n        if(u->r->overlapX(v->r)<=u->r->overlapY(v->r)) {",
+  "        Node *u=*(i);\n        const double ox=u->r->overlapX(v->r);\n        if(ox<=0) {\n            rightv->insert(u);\n            return rightv;\n        }\n        if(ox<=u->r->overlapY(v->r)) {", expect="silent")
